@@ -9,5 +9,6 @@ sys.path.insert(0, os.path.join(os.getcwd(), "sa"))
 import facts
 facts.ensure_driver()
 f, th = facts.extract(profile="dev")
+facts.extract_fixture("controls")
 print("facts", th, {k: len(v["bodies"]) for k, v in f.items()})
 PY
